@@ -288,6 +288,7 @@ theorem step_acct (s s' : St) (e : Ev) (i : Nat) (hi : Inv s) (hs : step s e = s
   | relCS b =>
     simp only [step] at hs; split at hs <;> try simp at hs
     split at hs <;> try simp at hs
+    case h_2 => obtain ⟨_, rfl⟩ := hs; rfl
     obtain ⟨_, rfl⟩ := hs
     exact acct_afterRemove _ (by exact hrel) i
   | selfRelCS a =>
